@@ -18,11 +18,11 @@ PROP = {
             "holds an integer and float32 for exactly representable floats in print/compare/arithmetic positions; []byte for a "
             "string that is only printed or passed to a string filter. All six are rendered on the real engine (and by the "
             "model); a difference is isolated to one statement and minimised to the variable and representation feature. "
-            "Fixed family (shard 0, real engine only; repsNestedDropFamily): 1077 rows (name, template, variant bindings) under fixed case "
+            "Fixed family (shard 0, real engine only; repsNestedDropFamily): 1094 rows (name, template, variant bindings) under fixed case "
             "names `reps-nested <name>`, the generic twin made from the variant by stripping the drop wrappers and the container types "
-            "at every depth; ORACLE: the variant renders exactly what its twin renders. 19 explicit rows (the four former deviations "
+            "at every depth; ORACLE: the variant renders exactly what its twin renders. 36 explicit rows (the four former deviations "
             "drop-in-printed-map, drop-in-array-to-string, drop-of-drop-in-array-equal, uniq-typed-nested-slice, which now must agree; "
-            "controls; lookups through up to five drops in a row), 19 array shapes x 38 paths and 12 map shapes x 28 paths (drops at "
+            "controls; lookups through up to five drops in a row; the rows of sort by a key; 17 rows sort-natural-* with drops of strings, drops of drops and drops that yield nil among the elements of sort_natural, under the key of its map elements and in its key argument, mixed with plain strings and nil, 3 to 20 elements), 19 array shapes x 38 paths and 12 map shapes x 28 paths (drops at "
             "depth 1-3 and at every depth, drop of drop of drop, maps in arrays and arrays in maps, drops as map values, typed slices "
             "and maps nested in arrays; print, join, conversion to a string, first/last, for/tablerow, == != <, contains as element and "
             "as needle, case/when, sort, sort_natural, sort by key, uniq, compact, concat, reverse, map, size, index/property lookup, "
@@ -63,12 +63,13 @@ TEXT = {
               'registered filters that excludes json, inspect and type every template renders to agreeing results (equal, or one run is outside the '
               'model) for environments that differ in typed vs generic slices, fixed arrays, typed maps at any depth and in '
               'drops/pointers around a binding. Drops nested in containers (d = true): run_std_rep_independent_nested_drops - on the standard engine '
-              'without sort_natural, json, inspect, type (stdPrimsOnly withoutNestedOpen; sort IS on it) every template renders to agreeing results (equal, or one run '
+              'without json, inspect, type - the engine of run_std_rep_independent_without_repr_filters, the same and only exclusion (stdPrimsOnly withoutNestedOpen, withoutNestedOpen = withoutRepr: '
+              'run_std_rep_independent_nested_drops_without_repr_filters states it with that name; sort and sort_natural ARE on it) - every template renders to agreeing results (equal, or one run '
               'is outside the model) for environments whose bindings have the same Liquid values in any Go representation, drops (and drops that yield drops) at ANY '
               'depth of arrays and maps included (ERel true; run_std_rep_independent_nested_drops_vrel states the hypothesis as VRel true on bindings none of which is '
-              'the forloop record; run_std_rep_independent_nested_drops_partial for any set of registered filters that excludes those four; '
-              'stdPrims_respect_nested_drops: PrimsRespect true true of that layer; filterRespects_std_nested: FilterRespects true true for every name but those four; '
-              'std_filter_respects_nested_drops: FilterRespects false true, exactly, for every name but sort and those four). '
+              'the forloop record; run_std_rep_independent_nested_drops_partial for any set of registered filters that excludes those three; '
+              'stdPrims_respect_nested_drops: PrimsRespect true true of that layer; filterRespects_std_nested: FilterRespects true true for every name but those three; sort_natural_respects_nested_drops: FilterRespects true true of sort_natural; '
+              'std_filter_respects_nested_drops: FilterRespects false true, exactly, for every name but sort, sort_natural and those three). '
               'Operation by operation: values.Equal applies ToLiquid, which follows a chain of drops, to both operands at every depth (Cmp.equalAux_pn_left/right, '
               'opEq_prep_vrel, equal_prep_repEq for every d), Less orders scalars only (opLt_prep_vrel), an array contains by Equal and a map by its keys '
               '(opContains_prep_vrel); and/or/truth tests, index and property lookup, first/last/size, loop items, ranges and loop modifiers take the result of a lookup '
@@ -82,8 +83,13 @@ TEXT = {
               'sort: key and sort_natural: key did NOT respect them (found while proving this layer): {{ a | sort: "k" | map: "n" | join }} with a = [{"k": 1, "n": "x"}, {"k": Drop(nil), "n": "y"}] '
               'rendered "x y" and with {"k": nil} "y x"; {{ a | sort: k | map: "n" | join }} and {{ a | sort_natural: k | map: "n" | join }} over entries keyed "[1]" rendered "x y" for '
               'k = [Drop(1)] and "y x" for k = [1]; the three former counterexamples of Proofs/C18.lean are theorems of the opposite statement, evaluated on the same templates and bindings '
-              '(sort_key_drop_nil_repaired, sort_key_name_drops_repaired, sort_natural_key_name_drops_repaired). sort_natural is left out of the nested-drops theorem: its congruence '
-              '(sortNaturalWith_rel, Proofs.RepEqSort) is proved for d = false only; no deviation of the code is known there. '
+              '(sort_key_drop_nil_repaired, sort_key_name_drops_repaired, sort_natural_key_name_drops_repaired). sort_natural, sort_natural: key respect nested drops as well '
+              '(sortNatural_respects_gen for every d, up to the unmodelled tie order beyond 12 elements; exactly on at most 12 elements: sortNaturalWith_relD_short): sortNaturalFilter looks at '
+              'its elements as they are (v == nil, reflect.ValueOf(m)) and relies on Convert to []any having passed them through ToLiquid, so the proof carries "no element is a drop at the top" '
+              '(NLD) through the insertion sort and the decoration (insertionSortM_relD, decorate_relD, sortNatM_relD); the sort text of an element is strings.ToUpper(fmt.Sprint(values.ResolveDrops(v))), '
+              '"" for nil (natKey_repEq_noDrop), with a key it is the entry under the key passed through ToLiquid before the string test (natKeyBy_repEq_noDrop). No deviation of the code was found there: '
+              'the real engine renders drops of strings, drops of drops, drops that yield nil, maps whose entry under the key is a drop or Drop(nil), mixed with plain strings and nil, as their generic twins '
+              '(17 rows sort-natural-* of the fixed family; sort_natural_elements_drops_evaluated, sort_natural_key_entries_drops_evaluated are two of them evaluated on the model). '
               'run_stdOut_rep_independent_nested_drops: for every comparison/filter layer that respects the equivalence with nested drops, the STANDARD output layer '
               '(stdOut_respects t true: writeObject writes arrays element by element and maps through fmt.Sprint(values.ResolveDrops(.)); sprintR_norm, writeChunksL_norm '
               'for every d) and every template render two such environments to the same result. The four former deviations are theorems of the opposite statement, '
@@ -101,14 +107,14 @@ TEXT = {
               'equal_num/less_num of Proofs.C09, audited under C09 and not here; no theorem on arithmetic by width nor on float32). Tie: the `reps` stream '
               'renders every generated template with the generic and five derived Go representations of one logical environment '
               'on the model and on the real engine and requires all of them to render identically on the real engine; in addition '
-              'a fixed family of 1077 (variant, generic twin) rows with drops and typed containers nested at depth 1-3 under every printing, '
+              'a fixed family of 1094 (variant, generic twin) rows with drops and typed containers nested at depth 1-3 under every printing, '
               'comparison and array-filter path is run on the real engine only and every row must agree (the four former deviations among them).'),
     "design_ref": 'DESIGN.md 6 C18',
     "note": NOTE + ('The property as stated was FALSE on the real engine in four recorded places (a drop inside a map that is printed '
               'whole, a drop inside an array converted to a string parameter, a drop that yields a drop inside an array under '
               'case/when, uniq on nested typed slices); they are repaired by fixes/nested-drops-resolved.patch (known_findings.json K-C18-*, '
               'status fixed; DESIGN 7.1b), the former counterexamples of Proofs/C18.lean are theorems of the opposite statement, and the '
-              'fixed family of the reps stream requires all of them (and 1073 further rows) to agree; no pair is whitelisted any more. '
+              'fixed family of the reps stream requires all of them (and 1090 further rows) to agree; no pair is whitelisted any more. '
               'values.ToLiquid stops after 64 drops in a row and values.ResolveDrops after 64 levels of containers (guards against a drop that '
               'yields itself); the model follows every chain to its end and the driver answers `unmodelled` for a value that holds a drop '
               'and is nested more than 64 deep (GoVal.withinDropDepth). json, inspect and type still print the Go representation of a nested '
@@ -119,9 +125,8 @@ TEXT = {
               'relation without drops nested in containers (d = false), up to unmodelled results (agreement is vacuous when either '
               'run is outside the model), and without the filters json, '
               'inspect, type (which observe the Go representation and do not respect the equivalence: counterexamples in Proofs/C18.lean); '
-              'for the relation WITH drops nested in containers (d = true) it is proved likewise, up to unmodelled results, for the standard engine without json, inspect, type '
-              'AND without sort_natural (run_std_rep_independent_nested_drops): sort_natural on values with nested drops is not proved (Proofs.RepEqSort proves it for d = false) and is covered by '
-              'the reps stream and its fixed family only. Two further deviations were found while proving the nested-drops layer and are repaired by fixes/sort-key-drops.patch '
+              'for the relation WITH drops nested in containers (d = true) it is proved likewise, up to unmodelled results, for the same engine - the standard engine without json, inspect, type and nothing else '
+              '(run_std_rep_independent_nested_drops; sort and sort_natural are on it, up to their unmodelled tie order beyond 12 elements). Two further deviations were found while proving the nested-drops layer and are repaired by fixes/sort-key-drops.patch '
               '(known_findings.json F-C18-sort-key-drops, status fixed): sort by a key did not sort an entry that is a drop yielding nil first, and sort / sort_natural named their key by '
               'fmt.Sprint without resolving the drops a container key holds; five rows of the fixed family (sort-key-*, sort-natural-key-name-holds-drop) fail on the unrepaired tree and must agree now. '
               'Pointers are followed at the top of a binding or expression result only: pointers stored inside maps or arrays '
